@@ -98,6 +98,23 @@ def parse_sanitizer(stderr_text):
             events.append({"kind": "ubsan:" + what[:60], "func": func, "text": "\n".join(block[:40])})
             i = j
             continue
+        m = re.match(r"^==(\d+)== ((?:Invalid|Conditional jump|Use of uninit|Syscall param|Source and dest|Mismatched|Argument|Process terminating|Jump to)[^\n]*)", ln)
+        if m:
+            # valgrind memcheck (run with -q: only errors are written)
+            what = re.sub(r"\d+", "N", m.group(2))
+            func = None
+            j = i + 1
+            block = [ln]
+            while j < len(lines) and re.match(r"^==%s==\s+(at|by) " % m.group(1), lines[j]):
+                block.append(lines[j])
+                fm = re.match(r"^==\d+==\s+(?:at|by) 0x[0-9A-Fa-f]+: (\S+) \((\S+?):\d+\)", lines[j])
+                if fm and func is None and re.match(r"^(iauth\w*|config|set|log|module|main|common|bitset|vector|accumulator)\.c$", fm.group(2)):
+                    func = fm.group(1)
+                j += 1
+            if not what.startswith("Process terminating"):
+                events.append({"kind": "memcheck:" + what[:60], "func": func or "?", "text": "\n".join(block[:30])})
+            i = j
+            continue
         i += 1
     return events
 
@@ -150,7 +167,7 @@ def _abort_site(stderr):
 
 class Daemon(object):
     def __init__(self, build, conf_text, leaks=True, env=None, args=("-n",), hooks=True,
-                 watchdog=30.0, keep=False):
+                 watchdog=30.0, keep=False, wrapper=()):
         self.build = build
         self.dir = tempfile.mkdtemp(prefix="iauthd-verif-", dir=SCRATCH_ROOT)
         self.conf_path = os.path.join(self.dir, "iauthd.conf")
@@ -172,7 +189,7 @@ class Daemon(object):
             e.update(env)
         self.errpath = os.path.join(self.dir, "stderr.txt")
         self.errf = open(self.errpath, "wb")
-        self.p = subprocess.Popen([build["exe"]] + list(args) + ["-f", self.conf_path],
+        self.p = subprocess.Popen(list(wrapper) + [build["exe"]] + list(args) + ["-f", self.conf_path],
                                   stdin=subprocess.PIPE, stdout=subprocess.PIPE, stderr=self.errf,
                                   cwd=self.dir, env=e, bufsize=0)
         self.ofd = self.p.stdout.fileno()
@@ -400,10 +417,10 @@ class Daemon(object):
             shutil.rmtree(self.dir, ignore_errors=True)
 
 
-def run_batch(build, conf_text, data, leaks=True, env=None, timeout=30.0, hooks=False, args=("-n",), pause_at=None, pause_s=0.0, on_pause=None, ready=None):
+def run_batch(build, conf_text, data, leaks=True, env=None, timeout=30.0, hooks=False, args=("-n",), pause_at=None, pause_s=0.0, on_pause=None, ready=None, wrapper=()):
     """Feed raw bytes, close stdin, return (stdout lines, Result).  No sync lines are added.
     pause_at / pause_s: stop writing at that byte offset for that many seconds (stdin stays open) so that real timers can run."""
-    d = Daemon(build, conf_text, leaks=leaks, env=env, hooks=hooks, watchdog=timeout, args=args)
+    d = Daemon(build, conf_text, leaks=leaks, env=env, hooks=hooks, watchdog=timeout, args=args, wrapper=wrapper)
     try:
         # writer must not block forever if the daemon dies
         pos = 0
